@@ -193,9 +193,24 @@ def dummy_names(typing_tree):
 
 def query_skeleton(sql_tree):
     """Tokenise make_query's SQL and map the qualname operator to a modelled matcher."""
-    fn = _find_func(sql_tree, "make_query")
-    strs = [n.value for n in ast.walk(fn) if isinstance(n, ast.Constant) and isinstance(n.value, str)]
-    sql = " ".join(strs)
+    # The SQL text is read off the REAL function (called in a fresh interpreter on the tree under test), which no
+    # refactoring that keeps the query can disturb; the string literals of its AST are the fallback.
+    sql = None
+    try:
+        import json
+        import subprocess
+        code = ("import json; from monkeytype.db.sqlite import make_query; "
+                "print(json.dumps([list(map(str, make_query('T', 'm', 'q', 7))), list(map(str, make_query('T', 'm', None, 7)))]))")
+        p = subprocess.run([common.PY, "-c", code], capture_output=True, text=True, env=common.sub_env(), timeout=60)
+        if p.returncode == 0:
+            (q1, _v1), (_q2, _v2) = json.loads(p.stdout.strip().splitlines()[-1])
+            sql = q1          # the query WITH a qualname prefix: it shows every clause
+    except Exception:
+        sql = None
+    if sql is None:
+        fn = _find_func(sql_tree, "make_query")
+        strs = [n.value for n in ast.walk(fn) if isinstance(n, ast.Constant) and isinstance(n.value, str)]
+        sql = " ".join(strs)
     sql = re.sub(r"\s+", " ", sql).strip()
     if not re.search(r"WHERE module == \?", sql):
         raise ExtractError("make_query: module predicate is not `module == ?`")
